@@ -302,6 +302,7 @@ Proof.
   - intros b b' Hw Hi Hp. cbn [push] in Hp. eapply push_none_inv2; eassumption.
   - intros b b' Hw Hi Hp. cbn [push] in Hp. cbn [text_ok] in Ht. exact (IHx Ht b b' Hw Hi Hp).
   - intros b b' Hw Hi Hp. cbn [push] in Hp. eapply push_none_inv2; eassumption.
+  - intros b b' Hw Hi Hp. cbn [push] in Hp. eapply push_none_inv2; eassumption.
   - intros b b' Hw Hi Hp. cbn [push] in Hp. cbn [text_ok] in Ht. exact (IHx Ht b b' Hw Hi Hp).
   - (* seq *)
     cbn [text_ok] in Ht. apply text_ok_seq in Ht.
